@@ -180,7 +180,7 @@ func verifyFunction(w *World, fn *ssa.Function) (rep *FnReport) {
 				for pi, nt := range env.evalSplit(en.Expr) {
 					name := "ensures" + en.labelStr() + partName(nt, pi)
 					if len(fx.rets) > 1 {
-						name += fmt.Sprintf("@return%d", ri+1)
+						name += fmt.Sprintf("@return%d", fx.retOrd[ri])
 					}
 					e.addObl("contract", name, fx.partTags(en, nt), rst, nt.term, fx.retPos[ri])
 				}
@@ -273,7 +273,7 @@ func verifyFunction(w *World, fn *ssa.Function) (rep *FnReport) {
 			if cur, ok := rst.heap[k]; ok {
 				name := "monitor.wake:" + class[strings.LastIndex(class, "/")+1:]
 				if len(fx.rets) > 1 {
-					name += fmt.Sprintf("@return%d", ri+1)
+					name += fmt.Sprintf("@return%d", fx.retOrd[ri])
 				}
 				e.addObl("lock", name, e.autoTags("lock", fn), rst, not(cur), fx.retPos[ri])
 			}
